@@ -65,8 +65,8 @@ theorem C07_fuzzyLe_consistent (a b : Rat) :
        decide_eq_false_iff_not, Bool.not_eq_true', Bool.not_eq_false'] at *
      constructor <;> (rw [fuzzyEqF_symm b a] at *; cases hd : decide (a < b) <;> cases hd' : decide (b < a) <;> simp_all))
 
-/-- The specified comparison of two finite numbers (`cmpD false`) answers "equal" exactly when
-    `==` does, so `<`/`==`/`>` cannot overlap. -/
+/-- The comparison of two finite numbers as the code stands (`cmpD false`, value/mod.rs:341) answers
+    "equal" exactly when `==` does, so `<`/`==`/`>` cannot overlap. -/
 theorem C07_cmp_specified_eq_iff (x y : Rat) :
     (cmpD false (.fin x) (.fin y) = some .eq) ↔ eqD (.fin x) (.fin y) = true := by
   unfold cmpD
@@ -82,9 +82,50 @@ theorem C07_cmp_specified_eq_iff (x y : Rat) :
     · have h2 : y < x := by grind
       simp [h1, h2, he]
 
-/-- **As the code stands** the ordering is the exact IEEE order although `==` is fuzzy: both
-    `1 < 1.000000000001` and `1 == 1.000000000001` hold (known finding D23); the specified
-    comparison answers "equal". -/
+/-- `Value::cmp` as the code stands, on finite numbers: `Equal` when fuzzy-equal, else the IEEE order. -/
+theorem C07_cmp_now (x y : Rat) :
+    cmpD false (.fin x) (.fin y) =
+      some (if fuzzyEqF x y = true then .eq else if x < y then .lt else .gt) := by
+  have he : eqD (.fin x) (.fin y) = fuzzyEqF x y := by simp [eqD, D.toRat?]
+  unfold cmpD
+  simp only [D.isNan, Bool.or_self, Bool.false_eq_true, if_false, Bool.not_false, Bool.true_and, he]
+  by_cases hf : fuzzyEqF x y = true
+  · simp [hf]
+  · simp only [hf, if_false]
+    have hne : x ≠ y := by intro e; subst e; exact hf (fuzzyEqF_refl x)
+    simp only [D.lt, D.toRat?]
+    by_cases h1 : x < y
+    · simp [h1]
+    · have h2 : y < x := by grind
+      simp [h1, h2]
+
+/-- **`<` and `<=` of the code as it stands are the tolerance-aware `fuzzy_less_than` /
+    `fuzzy_less_than_or_equals`** — so the trichotomy and consistency theorems above
+    (`C07_trichotomyF`, `C07_fuzzyLe_consistent`) are statements about the running code. -/
+theorem C07_lt_le_now (x y : Rat) :
+    cmpResult .lt (cmpD false (.fin x) (.fin y)) = fuzzyLt fuzzyEqF x y ∧
+    cmpResult .le (cmpD false (.fin x) (.fin y)) = fuzzyLe fuzzyEqF x y ∧
+    cmpResult .gt (cmpD false (.fin x) (.fin y)) = fuzzyLt fuzzyEqF y x ∧
+    cmpResult .ge (cmpD false (.fin x) (.fin y)) = fuzzyLe fuzzyEqF y x := by
+  rw [C07_cmp_now]
+  have hs := fuzzyEqF_symm y x
+  unfold fuzzyLt fuzzyLe cmpResult
+  by_cases hf : fuzzyEqF x y = true
+  · simp [hf, hs]
+  · have hf' : fuzzyEqF x y = false := by simpa using hf
+    have hne : x ≠ y := by intro e; subst e; exact hf (fuzzyEqF_refl x)
+    by_cases h1 : x < y
+    · have h2 : ¬ y < x := by grind
+      simp [hf', hs, h1, h2]
+    · have h2 : y < x := by grind
+      simp [hf', hs, h1, h2]
+example : cmpResult .lt (cmpD false (.fin 1) (.fin (dLit "1.000000000001"))) = false ∧
+    cmpResult .le (cmpD false (.fin (dLit "1.000000000001")) (.fin 1)) = true ∧
+    cmpResult .lt (cmpD false (.fin 1) (.fin (dLit "1.00000000002"))) = true := by decide +kernel
+
+/-- **The variant found on the pinned tree** (fixed since, commit "<, <=, > and >= use the same
+    tolerance as =="): the ordering was the exact IEEE order although `==` is fuzzy, so both
+    `1 < 1.000000000001` and `1 == 1.000000000001` held; the code as it stands answers "equal". -/
 theorem C07_asFound_order_overlaps_eq :
     cmpD true (.fin 1) (.fin (dLit "1.000000000001")) = some .lt ∧
     eqD (.fin 1) (.fin (dLit "1.000000000001")) = true ∧
@@ -127,6 +168,13 @@ theorem C07_floor_ceil (q : Rat) :
   simp only [Rat.intCast_neg]
   refine ⟨h1, by simpa using h2, by grind, by grind⟩
 example : roundHA (5/2) = 3 ∧ roundHA (-5/2) = -3 ∧ ceilQ (-1/2) = 0 ∧ (-1/2 : Rat).floor = -1 := by decide +kernel
+
+/-- `nth` as the code stands checks the integer first: `nth(1 2 3, 3.000000000001)` is the third
+    element; the variant found on the pinned tree compared the raw index with the length first. -/
+theorem C07_asFound_nth_range_first :
+    (match nthV true 3 (.fin (dLit "3.000000000001")) with | .error .badIdx => true | _ => false) = true ∧
+    (match nthV false 3 (.fin (dLit "3.000000000001")) with | .ok (.num (.fin q)) => decide (q = 3) | _ => false) = true := by
+  decide +kernel
 
 /-- dormant (not reachable from Sass today, all callers pass non-negative channels):
     `fuzzy_round` floors every negative input because Rust's `%` truncates. -/
